@@ -99,6 +99,7 @@ type Trans struct {
 	frameAll     bool
 	frameDone    bool
 	callRank     map[ssa.Instruction]int
+	curInstr     ssa.Instruction
 	nameOverride []string // parameter names for spec evaluation (refinement checks)
 }
 
